@@ -6,7 +6,7 @@ import Splipy.Lemmas.C18NumberingC
 
 set_option linter.unusedSectionVars false
 
-namespace Splipy.MP
+namespace Splipy.MP.C18L
 
 variable {γ : Type} [Inhabited γ]
 
@@ -61,9 +61,9 @@ theorem genOne_getD (c : ℕ) (p : PatchPlan) (q : ℕ) (hq : q < shapeSize p.sh
     rw [hflag.2 hf] at this
     exact absurd this (by decide)
 
-end Splipy.MP
+end Splipy.MP.C18L
 
-namespace Splipy.MP
+namespace Splipy.MP.C18L
 
 variable {γ : Type} [Inhabited γ]
 
@@ -138,7 +138,7 @@ theorem ptAt_of_pairs (Z : Array (NdArr (ℤ × γ))) (P : List (NdArr γ)) (h :
 theorem Z0_spec (plans : List PatchPlan) (P : List (NdArr γ)) (hcompat : Compat (generateAll plans 0).1 P)
     (k : ℕ) (p : PatchPlan) (hp : plans[k]? = some p) :
     ∃ c, (((List.zipWith zipNd (generateAll plans 0).1 P).toArray.getD k default).shape = p.shape ∧
-      ((List.zipWith zipNd (generateAll plans 0).1 P).toArray.getD k default).WF ∧
+      ((List.zipWith zipNd (generateAll plans 0).1 P).toArray.getD k default).SizeOK ∧
       ∀ q, q < shapeSize p.shape →
         ((List.zipWith zipNd (generateAll plans 0).1 P).toArray.getD k default).data.getD q default =
           ((genOne c p).1.data.getD q default, ptAt P k q)) := by
@@ -150,7 +150,7 @@ theorem Z0_spec (plans : List PatchPlan) (P : List (NdArr γ)) (hcompat : Compat
   rw [hz]
   have hsize : (genOne c p).1.data.size = shapeSize p.shape := genOne_size c p
   refine ⟨by simp [zipNd, genOne_shape], ?_, ?_⟩
-  · simp only [NdArr.WF, zipNd, Array.size_zip]
+  · simp only [NdArr.SizeOK, zipNd, Array.size_zip]
     rw [← hsz, hsize, genOne_shape]
     simp
   · intro q hq
@@ -161,4 +161,4 @@ theorem Z0_spec (plans : List PatchPlan) (P : List (NdArr γ)) (hcompat : Compat
     rw [hpt]
     simp [zipNd, Array.getD_eq_getD_getElem?, hq1, hq2]
 
-end Splipy.MP
+end Splipy.MP.C18L
